@@ -552,7 +552,7 @@ func init() {
 	}
 	registerCheck(&CheckDef{Prop: "C13", Level: "model_checking", Technique: "exhaustive malformed-message catalogue injected into every state of the explicit-state search of the real core, under recover() and a hang watchdog; ledger comparison before/after",
 		Quick:       []Run{{Scenario: "inject-cap-basic-fair", Depth: 3, MapModes: []int{1}, ExtraDepth: 3}, {Scenario: "inject-gang-Soft", Depth: 3, MapModes: []int{1}, ExtraDepth: 3}, {Scenario: "inject-reserve", Depth: 3, MapModes: []int{1}, ExtraDepth: 3}},
-		Thorough:    []Run{{Scenario: "inject-cap-basic-fair", Depth: 5, MapModes: []int{1}, ExtraDepth: 5}, {Scenario: "inject-gang-Soft", Depth: 5, MapModes: []int{1}, ExtraDepth: 5}, {Scenario: "inject-reserve", Depth: 5, MapModes: []int{1}, ExtraDepth: 5}},
+		Thorough:    []Run{{Scenario: "inject-cap-basic-fair", Depth: 6, MapModes: []int{1}, ExtraDepth: 6}, {Scenario: "inject-gang-Soft", Depth: 6, MapModes: []int{1}, ExtraDepth: 6}, {Scenario: "inject-reserve", Depth: 6, MapModes: []int{1}, ExtraDepth: 6}},
 		QuickBudget: 200 * time.Second, ThoroughBudget: 15 * time.Minute,
 		Assumptions: []string{"catalogue: full product of the field domains in the states of depth <= 1, every field over its whole domain (others default) plus pairs with the resource domain in deeper states", "no nil list elements and no nil map values (excluded by the statement)"}})
 }
